@@ -10,7 +10,16 @@ namespace Pybtex.Wrap
 def WsAt (s : Str) (q : Nat) : Prop := ∃ c, s[q]? = some c ∧ isWs c = true
 
 /-- `q` is a legal break position of a line for `wrap(·, width, indent)`: white space strictly
-behind the indent and not beyond `width`. -/
+behind the indent and not beyond `width`.
+
+"Behind the indent" is demanded of EVERY line, the first one included, although the first line
+carries no indent: the function documents "the lines are not allowed to be shorter than
+`len(subsequent_indent) + 1`" and pins it with the doctest `wrap('aa bb c', 3) = 'aa bb\n  c'`
+(the blank at column 2 of the first line is not a legal break; `C19_width_nonvacuous`).  This is
+the WEAK reading of "a line that has a legal break point" (a break point within the width,
+`C19_width`); the strong reading — any white space behind the indent, also beyond the width, where
+an over-long word could have been ended — is `C19_width_no_break_point`, and it is the one the
+harness oracle evaluates. -/
 def LegalBreak (width : Int) (indent : Str) (line : Str) (q : Nat) : Prop :=
   indent.length < q ∧ (q : Int) ≤ width ∧ WsAt line q
 
